@@ -45,7 +45,7 @@ def main():
             "engine": "coq-model+correspondence",
             "level_claimed": {"category": "proof", "text": text, "design_ref": "DESIGN.md section " + ref},
             "level_note": "Coq 8.16.1 kernel (vm_compute used, native_compute not), no axioms; trusted: gen_dump.c + gcc (Gen.v = graph of compiled tables), tools/cleaf.py and tools/cmid.py + clang front end (GenLeaf.v, GenMid.v; the memory model of cmid.py: members of one struct never alias, string accessors recognised by name, callbacks as events), hand-written model tied by running extracted model (ExtrOcamlBasic only) and implementation on the same scripts, OCaml driver, C harness, generators; the theorem is about the model and reaches the code only through that tie",
-            "technique": "machine-checked proof in Coq over a Gallina model of the API (every boolean observer the check evaluates is itself a theorem of the model for every script); tie = tables regenerated from the compiled library (Gen.v) + 30 leaf functions translated from clang's typed AST on every run and proved equal to the model's (GenLeaf.v) + 36 middle-layer functions up to rdsparser_parser_process translated the same way and proved equal to the model's process on the pinned tree (GenMid.v, Properties_Mid_Cxx.v: a second tie; when a change to the sources defeats it the check records that and doubles its search for a failing input) + model/implementation correspondence on generated scripts + extracted observers evaluated on implementation traces",
+            "technique": "machine-checked proof in Coq over a Gallina model of the API (every boolean observer the check evaluates is itself a theorem of the model for every script); tie = tables regenerated from the compiled library (Gen.v) + 30 leaf functions translated from clang's typed AST on every run and proved equal to the model's (GenLeaf.v) + 49 functions of the middle and API layer up to rdsparser_parser_process translated the same way and proved equal to the model's process on the pinned tree (GenMid.v, Properties_Mid_Cxx.v: a second tie; when a change to the sources defeats it the check records that and doubles its search for a failing input) + model/implementation correspondence on generated scripts + extracted observers evaluated on implementation traces",
         })
     man = {
         "version": 1,
